@@ -49,6 +49,7 @@ import (
 	"github.com/obolnetwork/charon/app/log"
 	"github.com/obolnetwork/charon/core"
 	cqbft "github.com/obolnetwork/charon/core/consensus/qbft"
+	"github.com/obolnetwork/charon/core/consensus/timer"
 	pbv1 "github.com/obolnetwork/charon/core/corepb/v1"
 	"github.com/obolnetwork/charon/core/qbft"
 	"github.com/obolnetwork/charon/p2p"
@@ -80,6 +81,10 @@ type scriptDL struct {
 	entered map[core.Duty]int // Add from runInstance answered "scheduled": qbft.Run is entered
 	skipped map[core.Duty]int // Add from runInstance answered expired/exempt
 	ch      chan core.Duty
+	// round timers: the component's timer factory is wrapped (hook WrapTimerFuncVerif); every instance
+	// must run on a timer created for its own duty (the default timer captures the duty's slot)
+	timerFor map[core.Duty]int // factory calls per duty
+	noTimer  map[core.Duty]int // entries into qbft.Run for a duty for which no timer was created
 }
 
 func fromRunInstance() bool {
@@ -107,6 +112,12 @@ func (d *scriptDL) Add(duty core.Duty) core.DeadlineStatus {
 	if fromRunInstance() {
 		if st == core.DeadlineScheduled {
 			d.entered[duty]++
+			if d.timerFor != nil && d.timerFor[duty] == 0 {
+				if d.noTimer == nil {
+					d.noTimer = map[core.Duty]int{}
+				}
+				d.noTimer[duty]++
+			}
 		} else {
 			d.skipped[duty]++
 		}
@@ -223,6 +234,17 @@ func newEpisode(run *hx.Run, nsubs int, participate bool) *episode {
 	e.cons, err = cqbft.NewConsensusWrapVerif(fakeHost{id: id}, []p2p.Peer{{ID: id, Index: 0, Name: "solo"}}, priv, e.dl,
 		func(core.Duty) bool { return true }, sniff, genesis, 12*time.Second, false)
 	hx.Must(err)
+	e.dl.mu.Lock()
+	e.dl.timerFor = map[core.Duty]int{}
+	e.dl.mu.Unlock()
+	e.cons.WrapTimerFuncVerif(func(next timer.RoundTimerFunc) timer.RoundTimerFunc {
+		return func(d core.Duty) timer.RoundTimer {
+			e.dl.mu.Lock()
+			e.dl.timerFor[d]++
+			e.dl.mu.Unlock()
+			return next(d)
+		}
+	})
 	for i := 0; i < nsubs; i++ {
 		i := i
 		if i%2 == 0 {
@@ -432,6 +454,10 @@ func (e *episode) summary(d core.Duty, before snapshot) string {
 		if n > 1 {
 			e.run.Violate("conswrap:decide_delivered_twice", fmt.Sprintf("subscriber %d was called %d times for duty %v", sub, n, d))
 		}
+	}
+	if e.dl.noTimer[d] > 0 {
+		e.run.Violate("conswrap:round_timer_of_other_duty", fmt.Sprintf("qbft.Run entered for duty %v although no round timer was created for that duty (the instance runs on another duty's deadlines)", d))
+		delete(e.dl.noTimer, d)
 	}
 	if e.dl.entered[d] > 1 {
 		e.run.Violate("conswrap:two_runs_for_duty", fmt.Sprintf("qbft.Run entered %d times for duty %v", e.dl.entered[d], d))
